@@ -409,3 +409,40 @@ func loopBodyExit(b *ssa.BasicBlock) bool {
 	}
 	return false
 }
+
+func init() {
+	register("MUSTRET", func(c *Ctx) {
+		parts := strings.Split(os.Getenv("DBG_FN"), ":")
+		for _, fn := range c.P.FuncsNamed(parts[0], parts[1], parts[2]) {
+			for _, ret := range returnsOf(fn) {
+				fmt.Println("RETURN @", c.P.Pos(posOf(ret.Ret, fn)))
+				for _, cj := range c.P.mustHoldAt(ret.Ret) {
+					fmt.Println("     ∨", strings.Join(cj.list(), "  ∧  "))
+				}
+			}
+		}
+		c.ok("dbg", "x", "", "")
+		c.ok("dbg", "y", "", "")
+	})
+}
+
+func init() {
+	register("MUSTSITE", func(c *Ctx) {
+		parts := strings.Split(os.Getenv("DBG_FN"), ":")
+		for _, fn := range c.P.FuncsNamed(parts[0], parts[1], parts[2]) {
+			for _, g := range withAnons(fn) {
+				for _, s := range sitesOf(g) {
+					if !strings.Contains(s.CalleeName(), os.Getenv("DBG_SITE")) {
+						continue
+					}
+					fmt.Println("SITE", s.CalleeName(), "@", c.P.Pos(s.Pos()))
+					for _, cj := range c.P.mustHoldAt(s.Instr) {
+						fmt.Println("     ∨", strings.Join(cj.list(), "  ∧  "))
+					}
+				}
+			}
+		}
+		c.ok("dbg", "x", "", "")
+		c.ok("dbg", "y", "", "")
+	})
+}
